@@ -359,7 +359,11 @@ func valuesOf(s *ref.Struct, tier universe.Tier) []*ref.Val {
 			v = append(v, c)
 		}
 	}
-	if len(valCache) > 64 {
+	limit := 64
+	if tier == universe.Thorough {
+		limit = 12 // thorough values hold 70 000-element containers: keep fewer types' values alive
+	}
+	if len(valCache) > limit {
 		for k := range valCache {
 			delete(valCache, k)
 		}
